@@ -1293,6 +1293,32 @@ def run(ctx):
     ctx.cov["results_sequence_counts"] = ns
     ctx.cov["results_per_kind"] = {k: sum(1 for kk, _ in pairs if kk == k) for k in real}
     ctx.sample({"results_case": cases[0]["case"], "p": cases[0]["p"], "order": cases[0]["res"]["order"]})
+    # ---- S1 + S2 of the class-specific half (option setters x class-specific getters) -------
+    _r, ocases = dump_states(ctx, "MCOptions", "MCOptions.cfg" if ctx.quick else "MCOptions_thorough.cfg",
+                             stage="S1-options", workers=8)
+    ocases.sort(key=lambda cs: json.dumps(cs["case"], sort_keys=True))
+    seen_sets = {(cs["case"]["kind"], tuple(sorted(set(cs["case"]["setters"])))) for cs in ocases}
+    for k, names in (("clustalo", ("full", "dist_in", "tree_in")), ("muscle3", ("gap_lin", "gap_aff", "matrix")),
+                     ("muscle5", ("iters", "threads", "super5")), ("mafft", ("matrix",))):
+        subsets = {(k, tuple(sorted(n for j, n in enumerate(names) if m >> j & 1))) for m in range(1 << len(names))}
+        if not subsets <= seen_sets:
+            raise Vacuity(f"option cases of {k}: subsets {sorted(subsets - seen_sets)} of the setters missing")
+    if not any(cs["extra"]["dist"]["k"] == "value" and "dist_in" in cs["case"]["setters"] for cs in ocases):
+        raise Vacuity("no option case in which a distance matrix is both given and asked for")
+    if not any(cs["extra"]["tree_kmer"] and cs["extra"]["tree_kmer"] != cs["extra"]["tree_identity"] for cs in ocases):
+        raise Vacuity("no option case with distinguishable trees of the two iterations")
+    ocases.sort(key=lambda cs: -cs["case"]["n"])
+    nitems = max(16, len(ocases) // 12)
+    oitems = [{"cases": ocases[i::nitems]} for i in range(nitems)]
+    ores = run_pool(ctx, "harness.drivers.c20:exec_options", oitems, stage="S2-options",
+                    env={"C20_TMP": tmp}, item_timeout=300)
+    ctx.traces_validated += len(ocases)
+    ctx.evaluations += sum(r.get("steps", 0) for r in ores if r)
+    ctx.nontrivial += sum(1 for cs in ocases if len(cs["case"]["setters"]) >= 2)
+    ctx.cov["options_cases"] = len(ocases)
+    ctx.cov["options_cases_per_kind"] = {k: sum(1 for cs in ocases if cs["case"]["kind"] == k) for k in real}
+    ctx.cov["options_setter_sequences"] = len({(cs["case"]["kind"], tuple(cs["case"]["setters"])) for cs in ocases})
+    ctx.sample({"options_case": ocases[0]["case"], "extra": _short_extra(ocases[0]["extra"])})
     # ---- S3 ----------------------------------------------------------------------------
     ntr = 150 if ctx.quick else 4000
     titems = []
@@ -1301,6 +1327,10 @@ def run(ctx):
         r = ctx.rng.random()
         if r < 0.12:
             tool = dict(DEFAULT_TOOL, launch=ctx.rng.choice(["missing", "badopt"]))
+        elif r < 0.22:
+            tool = dict(DEFAULT_TOOL, build=ctx.rng.choice([b for b in BUILDS if b != "ok"]))
+            if not realisable(kind, tool):
+                tool["build"] = "bad_input" if kind != "sim" else "ok"
         else:
             tool = dict(DEFAULT_TOOL)
             for dim, vals in TOOL_DIMS.items():
@@ -1310,6 +1340,7 @@ def run(ctx):
                 tool["order"] = "identity"
             if kind == "sim":
                 tool["vol"] = "small"
+                tool["stop"] = "default"
         titems.append({"seed": ctx.rng.randrange(1 << 30), "kind": kind, "tool": tool, "length": 16})
     tres = run_pool(ctx, "harness.drivers.c20:gen_trace", titems, stage="S3",
                     env={"C20_TMP": tmp}, item_timeout=120)
@@ -1357,22 +1388,26 @@ def run(ctx):
         for e in (r or {}).get("events", ()):
             rtraces.append([e])
             rkinds.append(it["kind"])
-    keep = ("tool", "join", "n", "lens", "out", "rows", "order", "leaves", "sequences")
+    keep = ("tool", "join", "n", "lens", "out", "rows", "order", "leaves", "sequences", "wkind", "setters",
+            "given_tree", "extra", "guards")
     rms = tlc_validate(ctx, rtraces, module="ResultsTrace", cfg="ResultsTrace.cfg", stage="S3-results", keep=keep)
     for m in rms:
         _tag, tid, _l, flags, expd = m
         e = rtraces[tid - 1][0]
         if expd["oc"] == "NOTDOMAIN":
             raise RuntimeError(f"S3-results: the program's copy is not a complete alignment: {e['tool']} n={e['n']} out={e['out'][:3]}")
-        names = ["rows", "order", "leaves", "sequences", "faithful"]
+        names = ["rows", "order", "leaves", "sequences", "faithful", "extra", "guards"]
         bad = [n for n, ok in zip(names, flags) if not ok] if expd["oc"] == e["join"] else ["join"]
         diff = [i for i, r in enumerate(expd.get("rows", [])) if i >= len(e["rows"]) or e["rows"][i] != r][:3]
         ctx.mismatch({"stage": "S3", "kind": "results_event", "app_kind": rkinds[tid - 1], "tool": e["tool"],
                       "bad": bad, "n": e["n"], "lens": e["lens"], "st": e["st"], "pad": e["pad"],
+                      "setters": e["setters"], "given": e["given"],
                       "emitted_order": [int("".join(map(str, o["hdr"]))) for o in e["out"]] or e["perm"],
                       "expected": {"join": expd["oc"], "rows": _small(expd.get("rows", []), diff),
-                                   "order": expd.get("order", [])[:24]},
+                                   "order": expd.get("order", [])[:24],
+                                   "extra": _short_extra(expd["extra"]) if "extra" in expd else None},
                       "observed": {"join": e["join"], "rows": _small(e["rows"], diff), "order": e["order"][:24],
+                                   "extra": _short_extra(e["extra"]), "guards": e["guards"],
                                    "leaves": [x[:24] for x in e["leaves"]], "sequences": e["sequences"]}})
     ctx.traces_validated += len(rtraces)
     ctx.evaluations += 4 * len(rtraces)
